@@ -61,6 +61,9 @@ fn nt_c09(e: &Events) -> bool {
 fn nt_c10(e: &Events) -> bool {
     ev_has(e, "children_strict_subset") && (ev_has(e, "remove_children_strict_subset") || ev_has(e, "retain_nonconstant"))
 }
+fn nt_c13(e: &Events) -> bool {
+    (ev_has(e, "mut_traversal_strict_subset") || ev_has(e, "setop_mut_both_nonempty")) && ev_has(e, "write_through_ref")
+}
 fn nt_c15(e: &Events) -> bool {
     ev_has(e, "collapse") || ev_has(e, "retain_removed_ge2")
 }
@@ -193,6 +196,18 @@ pub fn hist_spec(id: &str, tier: &str) -> Option<(HistSpec, Info)> {
                 assumptions: vec![gen_note.into()],
             },
         ),
+        "C13" => (
+            mk("C13", &[13], vec!["C13"], {
+                let mut w = Weights::full();
+                w.get_mut = 6; w.lpm_mut = 6; w.iter_mut = 8; w.children_mut = 8; w.view_write = 8; w.view_iter = 10; w.setop = 14; w.insert = 40;
+                w
+            }, all_types(), budget(tier, (220, 1, 40), (1300, 16, 160)), false, false, nt_c13),
+            Info {
+                level: "exploration",
+                rule: "non-trivial = history in which a mutable traversal yielded >=2 references while at least one entry was not yielded, or a *_mut set operation ran over two non-empty operands, and a value was written through a yielded reference; distinct by hash of the case",
+                assumptions: vec![gen_note.into(), "each mutable traversal is compared with its read-only twin taken immediately before; all yielded references are collected first (alive simultaneously) and then written; afterwards contents, key set, len(), walked shape and get/get_lpm/view_at/values are compared".into()],
+            },
+        ),
         "C20" => (
             mk("C20", &[20, 4], vec!["C20"], Weights::full(), all_types(), budget(tier, (260, 1, 40), (1500, 16, 200)), false, true, nt_c20),
             Info {
@@ -252,6 +267,7 @@ pub enum Part {
     Pair(PairSpec),
     C17,
     C19,
+    C14,
 }
 
 fn nt_ev(name: &'static str) -> fn(&Events) -> bool {
@@ -290,6 +306,9 @@ pub fn parts(id: &str, tier: &str) -> Option<(Vec<Part>, Info)> {
             s2.label = if id == "C15" { "C15canon" } else { "C16canon" };
             v.push(Part::Hist(spec));
             v.push(Part::Hist(s2));
+        } else if id == "C13" {
+            v.push(Part::Hist(spec));
+            v.push(Part::Pair(pair_spec("C13", &[13], vec!["C13"], tier, nt_ev("c13p"))));
         } else if id == "C18" {
             v.push(Part::Hist(spec));
             let mut p = pair_spec("C18", &[5, 6, 7, 8, 18], vec!["C18"], tier, |e| ev_has(e, "both_nonempty"));
@@ -321,6 +340,14 @@ pub fn parts(id: &str, tier: &str) -> Option<(Vec<Part>, Info)> {
         "C08" => Some((
             vec![Part::Pair(pair_spec("C08", &[8], vec!["C08"], tier, nt_ev("c08")))],
             info("non-trivial = case containing an item whose expected annotation is Some with a strictly shorter prefix, or None while the other view is non-empty; distinct by hash of the case"),
+        )),
+        "C14" => Some((
+            vec![Part::C14],
+            Info {
+                level: "exploration",
+                rule: "runtime part: one evaluation = a generated state, a generated plan that takes a whole-map TrieViewMut apart (split/left/right/find/find_lpm) into up to 8 simultaneously live views, an optional *_mut set operation between two of them, and per-view worker programs; (1) all &mut handed out while the borrow is alive must have pairwise distinct addresses and keys, each view hands out exactly the entries under its prefix, live views never overlap; (2) running the workers on std::thread::scope threads gives the same final map as running them sequentially on a clone. Compile-time part: generated client programs (see coverage.programs). Non-trivial = case with >=3 simultaneously live views or >=8 live references; distinct by hash of the case",
+                assumptions: vec!["native threads do not control the schedule; the Miri runs of the thorough tier do (seeded scheduler, data-race and aliasing detection) on small cases".into(), "the program grammar covers the public constructors of mutable/shared handles up to two handles per conflict".into()],
+            },
         )),
         "C17" => Some((
             vec![Part::C17],
@@ -373,6 +400,10 @@ pub fn run_check(id: &str, tier: &str, seed: u64, replay: Option<&str>) -> i32 {
                         o = crate::c19::replay_c19(p);
                         break;
                     }
+                    Part::C14 => {
+                        o = crate::c14::replay_c14(p);
+                        break;
+                    }
                     Part::Hist(s) if !is_pair => {
                         o = replay_hist(s, p);
                         break;
@@ -393,6 +424,7 @@ pub fn run_check(id: &str, tier: &str, seed: u64, replay: Option<&str>) -> i32 {
                     Part::Pair(s) => run_pair_check(s, seed),
                     Part::C17 => crate::c17::run_c17(tier, seed),
                     Part::C19 => crate::c19::run_c19_check(tier, seed),
+                    Part::C14 => crate::c14::run_c14_runtime(tier, seed),
                 };
                 o.merge(o2);
                 if o.violation.is_some() {
